@@ -205,6 +205,16 @@ class Ctx:
             if not base.endswith("_test.go"):
                 base = base[:-3] + "_test.go" if base.endswith(".go") else base + "_test.go"
             overlay[os.path.join(REPO, pkg, "zz_verif_" + base)] = src
+        # the package's own dependency_monitor_test.go binds a fixed TCP port in init() and
+        # crashes the test binary when the port is busy (two checks running at once): overlay a
+        # copy that listens on an ephemeral port instead
+        dm = os.path.join(REPO, pkg, "dependency_monitor_test.go")
+        if os.path.exists(dm):
+            txt = open(dm).read()
+            if '"127.0.0.1:10638"' in txt:
+                patched = os.path.join(self.work, "dependency_monitor_patched_test.go")
+                open(patched, "w").write(txt.replace('tls.Listen("tcp", "127.0.0.1:10638"', 'tls.Listen("tcp", "127.0.0.1:0"'))
+                overlay[dm] = patched
         if extra_overlay:
             overlay.update(extra_overlay)
         ov = os.path.join(self.work, "overlay_%s.json" % test)
